@@ -19,7 +19,8 @@ Literal, total, executable mirror of
 
 External calls are parameters (`Ext`): `Timestamp::parse` ∘ `fmt_timestamp` (property C14 owns them).
 Tracks /repo at c575458 (integers: `parse_integer`, since 7ec6a52; text: CR written as `&#13;`, since 7fbc5bc;
-character data = all text pieces and CDATA sections of the element, since c575458).
+character data = all text pieces and CDATA sections of the element, since c575458; character data outside the
+document element is refused by `read_event`, which keeps the nesting depth, since 4f52948).
 The lookahead state `peeked` / `next_slot` of `Deserializer` is the head of the remaining event list here:
 `peek_event` = look at the head, `consume_peeked` / `next_event` = drop it; `Empty` is expanded by `deEvents`.
 -/
@@ -28,8 +29,15 @@ namespace S3V.Xml
 
 /-! ## events -/
 
-/-- what `Deserializer::read_event` hands out (`DeEvent`), plus `bad` = the tokeniser returned an error at this
-point (`DeError::InvalidXml`). End of list = `DeEvent::Eof` (quick-xml keeps answering `Eof`).
+/-- `DeError` kinds -/
+inductive DeErr where
+  | invalidXml | unexpectedEof | unexpectedStart | unexpectedEnd | unexpectedTagName
+  | invalidContent | missingField | duplicateField
+  deriving DecidableEq, Repr
+
+/-- what `Deserializer::read_event` hands out (`DeEvent`), plus `bad e` = `read_event` returned the error `e` at
+this point: `DeError::InvalidXml` when the tokeniser failed, `DeError::InvalidContent` for character data outside
+the document element (since 4f52948). End of list = `DeEvent::Eof` (quick-xml keeps answering `Eof`).
 `rest` of a start tag = the raw bytes after the element name (attributes), which the deserialiser never looks at
 and the serialiser uses for ` xmlns="…"`. -/
 inductive Ev where
@@ -37,13 +45,7 @@ inductive Ev where
   | stop (name : Bytes)
   | text (raw : Bytes)
   | cdata (content : Bytes)   -- `DeEvent::CData` (since c575458): a CDATA section, content verbatim
-  | bad
-  deriving DecidableEq, Repr
-
-/-- `DeError` kinds -/
-inductive DeErr where
-  | invalidXml | unexpectedEof | unexpectedStart | unexpectedEnd | unexpectedTagName
-  | invalidContent | missingField | duplicateField
+  | bad (e : DeErr)
   deriving DecidableEq, Repr
 
 def DeErr.name : DeErr → String
@@ -220,7 +222,7 @@ def expectStart (name : Bytes) (evs : List Ev) : Except DeErr (List Ev) :=
   match skipText evs with
   | .start n _ :: r => if n = name then .ok r else .error .unexpectedTagName
   | .stop _ :: _ => .error .unexpectedEnd
-  | .bad :: _ => .error .invalidXml
+  | .bad e :: _ => .error e
   | .text _ :: _ => .error .invalidXml -- unreachable: `skipText` never stops at a text
   | .cdata _ :: _ => .error .invalidXml -- unreachable
   | [] => .error .unexpectedEof
@@ -230,7 +232,7 @@ def expectEnd (name : Bytes) (evs : List Ev) : Except DeErr (List Ev) :=
   match skipText evs with
   | .start _ _ :: _ => .error .unexpectedStart
   | .stop n :: r => if n = name then .ok r else .error .unexpectedTagName
-  | .bad :: _ => .error .invalidXml
+  | .bad e :: _ => .error e
   | .text _ :: _ => .error .invalidXml -- unreachable
   | .cdata _ :: _ => .error .invalidXml -- unreachable
   | [] => .error .unexpectedEof
@@ -240,7 +242,7 @@ def expectEof (evs : List Ev) : Except DeErr Unit :=
   match skipText evs with
   | .start _ _ :: _ => .error .unexpectedStart
   | .stop _ :: _ => .error .unexpectedEnd
-  | .bad :: _ => .error .invalidXml
+  | .bad e :: _ => .error e
   | .text _ :: _ => .error .invalidXml -- unreachable
   | .cdata _ :: _ => .error .invalidXml -- unreachable
   | [] => .ok ()
@@ -270,7 +272,7 @@ CDATA sections up to the end tag (comments and PIs are already skipped). A lone 
 def textLoop : Option Bytes → Option Bytes → List Ev → R Bytes
   | _, _, [] => .error .unexpectedEof
   | _, _, .start _ _ :: _ => .error .unexpectedStart
-  | _, _, .bad :: _ => .error .invalidXml
+  | _, _, .bad e :: _ => .error e
   | single, joined, .stop n :: r =>
     match joined with
     | some s => .ok (escape s, .stop n :: r)
@@ -308,7 +310,7 @@ def forEach {α : Type} (f : Bytes → List Ev → α → R α) : Nat → List E
         match expectEnd n r' with
         | .error e => .error e
         | .ok r'' => forEach f fuel r'' acc'
-    | .bad :: _ => .error .invalidXml
+    | .bad e :: _ => .error e
     | rest => .ok (acc, rest)      -- `End(_) | Eof => return Ok(())`, not consumed
 
 /-! ## scalar content -/
@@ -426,7 +428,7 @@ mutual
           match expectEnd n r' with
           | .error e => .error e
           | .ok r'' => .ok (v, r'')
-      | .bad :: _ => .error .invalidXml
+      | .bad e :: _ => .error e
       | _ => .error .unexpectedEnd
     | s, evs =>
       match textOf evs with
@@ -559,7 +561,7 @@ def writeEv : Ev → Bytes
   | .stop n => cLt :: 47 :: n ++ [cGt]
   | .text raw => raw
   | .cdata c => [60, 33, 91, 67, 68, 65, 84, 65, 91] ++ c ++ [93, 93, 62] -- never written by the serialiser
-  | .bad => []
+  | .bad _ => []
 
 def write (evs : List Ev) : Bytes := evs.flatMap writeEv
 
@@ -704,15 +706,23 @@ def stripBom (b : Bytes) : Bytes :=
 
 def tokenize (doc : Bytes) : List QEv := tokLoop (doc.length + 1) (stripBom doc) []
 
-/-- `Deserializer::read_event`: skip comments, PIs, declarations; expand `Empty` through `next_slot` -/
-def deEvents : List QEv → List Ev
-  | [] => []
-  | .start n r :: t => .start n r :: deEvents t
-  | .stop n :: t => .stop n :: deEvents t
-  | .empty n r :: t => .start n r :: .stop n :: deEvents t
-  | .text raw :: t => .text raw :: deEvents t
-  | .cdata c :: t => .cdata c :: deEvents t
-  | .err :: _ => [.bad]
-  | _ :: t => deEvents t
+/-- `Deserializer::read_event` iterated: skip comments, PIs, declarations; expand `Empty` through `next_slot`.
+`depth` is the field of the same name: the number of elements open at the reader's position (`Start` +1, `End` −1
+saturating, `Empty` ±0). Outside the document element (`depth == 0`) character data other than white space
+(space, tab, CR, LF) and every CDATA section make `read_event` return `DeError::InvalidContent` (since 4f52948;
+before, `expect_start` / `expect_eof` / `for_each_element` skipped them: finding F-xml-6, fixed). An error ends
+the run: every caller propagates it. -/
+def deEventsAt : Nat → List QEv → List Ev
+  | _, [] => []
+  | d, .start n r :: t => .start n r :: deEventsAt (d + 1) t
+  | d, .stop n :: t => .stop n :: deEventsAt (d - 1) t
+  | d, .empty n r :: t => .start n r :: .stop n :: deEventsAt d t
+  | d, .text raw :: t => if d = 0 ∧ raw.all isWs = false then [.bad .invalidContent] else .text raw :: deEventsAt d t
+  | d, .cdata c :: t => if d = 0 then [.bad .invalidContent] else .cdata c :: deEventsAt d t
+  | _, .err :: _ => [.bad .invalidXml]
+  | d, _ :: t => deEventsAt d t
+
+/-- the events of a whole document: the reader starts outside every element -/
+def deEvents (q : List QEv) : List Ev := deEventsAt 0 q
 
 end S3V.Xml
